@@ -103,14 +103,20 @@ def dict_iter(target: ast.AST, it: ast.AST, chain: str) -> Optional[Dict[str, An
     if attr_chain(it) != chain:
         return None
     key = value = None
+    value_elts: Optional[List[Optional[str]]] = None        # the value unpacked in the target: for k, (a, b) in d.items()
+    vt: Optional[ast.AST] = None
     if view == 'keys' and isinstance(target, ast.Name):
         key = target.id
-    elif view == 'values' and isinstance(target, ast.Name):
-        value = target.id
+    elif view == 'values':
+        vt = target
     elif view == 'items' and isinstance(target, ast.Tuple) and len(target.elts) == 2:
         key = target.elts[0].id if isinstance(target.elts[0], ast.Name) else None
-        value = target.elts[1].id if isinstance(target.elts[1], ast.Name) else None
-    return {'key': key, 'value': value, 'snapshot': snapshot, 'view': view}
+        vt = target.elts[1]
+    if isinstance(vt, ast.Name):
+        value = vt.id
+    elif isinstance(vt, (ast.Tuple, ast.List)):
+        value_elts = [e.id if isinstance(e, ast.Name) else None for e in vt.elts]
+    return {'key': key, 'value': value, 'value_elts': value_elts, 'snapshot': snapshot, 'view': view}
 
 
 def iteration_mutations(prog: Program, funcs: List[FuncInfo], root: ClassInfo, chain: str) -> Iterator[Tuple[FuncInfo, ast.AST, ast.AST, str]]:
@@ -682,3 +688,30 @@ def recvbuf_tls_check(ch: Any, rule: str) -> None:
         ch.check(bool(ok), rule, None, name, '%s = %s bytes >= one TLS record (16384)' % (name, v),
                  '%s evaluates to %r, less than a TLS record (16384 bytes), and no receive path drains SSLSocket.pending(): a record carrying more plaintext than that is read only in part, '
                  'the rest is never fetched and the exchange stalls until the idle timeout' % (name, v), module_rel='proxy/common/constants.py')
+
+
+def lock_held_steps(path: Any, fn_node: ast.AST, lock: str) -> Dict[int, bool]:
+    """For every executed step of `path`: is `lock` (dotted text, e.g. 'self.lock') held there?  Two spellings are one
+    discipline: the body of `with <lock>:` and the stretch between `<lock>.acquire()` (no arguments: blocking) and the
+    next `<lock>.release()` on the path (the usual acquire / try / finally: release)."""
+    inside_with: Set[int] = set()
+    for w in ast.walk(fn_node):
+        if isinstance(w, (ast.With, ast.AsyncWith)) and any(norm(it.context_expr) == lock for it in w.items):
+            for b in w.body:
+                for n_ in ast.walk(b):
+                    inside_with.add(id(n_))
+    out: Dict[int, bool] = {}
+    held = False
+    for idx, nd, lab in path.executed():
+        a = nd.ast
+        if a is None:
+            continue
+        out[idx] = held or id(a) in inside_with
+        if nd.kind == 'stmt':
+            for c in walk_no_nested(a):
+                if isinstance(c, ast.Call) and isinstance(c.func, ast.Attribute) and norm(c.func.value) == lock:
+                    if c.func.attr == 'acquire' and not c.args and not c.keywords:
+                        held = True
+                    elif c.func.attr == 'release':
+                        held = False
+    return out
